@@ -114,14 +114,19 @@ func broken(format string, a ...any) {
 }
 
 func loadRepo(repo, tier string, env []string, label string) *Ctx {
+	return loadRepoOverlay(repo, tier, env, label, nil)
+}
+
+func loadRepoOverlay(repo, tier string, env []string, label string, overlay map[string][]byte) *Ctx {
 	t0 := time.Now()
 	fset := token.NewFileSet()
 	cfg := &packages.Config{
 		Mode:  packages.LoadAllSyntax,
 		Dir:   repo,
 		Fset:  fset,
-		Tests: false,
-		Env:   append(os.Environ(), env...),
+		Tests:   false,
+		Env:     append(os.Environ(), env...),
+		Overlay: overlay,
 	}
 	pkgs, err := packages.Load(cfg, "./...")
 	if err != nil {
